@@ -55,8 +55,10 @@ Judge(ph, i) ==
              Run[q \in 0..49] == IF q = 0 THEN 0
                                  ELSE LET prev == Run[q - 1]        \* one reference only: TLC does not memoise
                                       IN IF prev = -1 THEN -1 ELSE DecStep(D.T, prev, Pt(q - 1))
-             model == IF Run[49] = -1 THEN "rejected" ELSE "decoded"
-         IN [why |-> IF ~reachable /\ s.outcome # "rejected" THEN "UnreachablePointRejected" ELSE "ok",
+             \* the 49th point carries the flush tribit 000 the encoder appends: no encoder state emits anything else there
+             model == IF Run[49] # 0 THEN "rejected" ELSE "decoded"
+             flushBad == s.pos = 48 /\ Run[48] # -1 /\ s.point # D.T[Run[48] + 1][1]
+         IN [why |-> IF (~reachable \/ flushBad) /\ s.outcome # "rejected" THEN "UnreachablePointRejected" ELSE "ok",
              dr |-> IF model # s.outcome THEN "decoder-run-differs-from-model" ELSE "ok"]
     [] ph = "aimed" ->
          \* a whole stream of 49 constellation points laid out by the harness: a valid prefix, one point no successor of the
@@ -65,7 +67,7 @@ Judge(ph, i) ==
              Run[q \in 0..49] == IF q = 0 THEN 0
                                  ELSE LET prev == Run[q - 1]
                                       IN IF prev = -1 THEN -1 ELSE DecStep(D.T, prev, s.points[q])
-             model == IF Run[49] = -1 THEN "rejected" ELSE "decoded"
+             model == IF Run[49] # 0 THEN "rejected" ELSE "decoded"      \* -1: a point no successor emits; > 0: a last point that is no flush
          IN [why |-> IF model = "rejected" /\ s.outcome # "rejected" THEN "UnreachablePointRejected" ELSE "ok",
              dr |-> IF model # s.outcome THEN "decoder-run-differs-from-model" ELSE "ok"]
     [] ph = "comp" ->
